@@ -12,7 +12,9 @@ CONSTANTS KemSet,
           SmallOrder,    \* TRUE: also offer the X25519 small-order encodings as peer keys
           Emit
 
-MoreWitnesses == {}      \* filled in by tools/find_reject_witness.py results
+\* found by tools/find_reject_witness.py (32-byte inputs)
+MoreWitnesses == {Lit(<<170, 170, 170, 170, 170, 170, 170, 170, 170, 170, 170, 170, 170, 170, 170, 170, 170, 170, 170, 170, 170, 170, 170, 170, 0, 0, 0, 0, 1, 249, 95, 97>>),
+                  Lit(<<170, 170, 170, 170, 170, 170, 170, 170, 170, 170, 170, 170, 170, 170, 170, 170, 170, 170, 170, 170, 170, 170, 170, 170, 0, 0, 0, 0, 119, 87, 50, 23>>)}
 
 VARIABLE last
 
